@@ -254,20 +254,7 @@ func (g *gateInfo) compute(fns map[*ssa.Function]bool) {
 				}
 				if isPrimary {
 					// the operation picked from the document must be non-nil as well
-					var opOK map[*ssa.BasicBlock]bool
-					for _, i2 := range allInstrs(fn) {
-						iff, ok := i2.(*ssa.If)
-						if !ok {
-							continue
-						}
-						side := nilTestSide(iff, func(x ssa.Value) bool {
-							return namedOf(x.Type()) == "github.com/vektah/gqlparser/v2/ast.OperationDefinition"
-						})
-						if side != nil {
-							opOK = union(opOK, dominatedBy(side))
-						}
-					}
-					okBlocks = intersect(okBlocks, opOK)
+					okBlocks = intersect(okBlocks, g.opSelected(fn))
 				}
 				val = union(val, okBlocks)
 			}
@@ -306,6 +293,158 @@ func (g *gateInfo) compute(fns map[*ssa.Function]bool) {
 			break
 		}
 	}
+}
+
+const opDefType = "github.com/vektah/gqlparser/v2/ast.OperationDefinition"
+
+// opSelected returns the blocks of fn in which an operation has been selected and is known
+// to be non-nil: behind an explicit nil test, or behind the success side of a selector helper
+// (a module function returning (*ast.OperationDefinition, error) whose every success return
+// yields a non-nil operation).
+func (g *gateInfo) opSelected(fn *ssa.Function) map[*ssa.BasicBlock]bool {
+	var out map[*ssa.BasicBlock]bool
+	for _, ins := range allInstrs(fn) {
+		switch x := ins.(type) {
+		case *ssa.If:
+			side := nilTestSide(x, func(v ssa.Value) bool { return namedOf(v.Type()) == opDefType })
+			if side != nil {
+				out = union(out, dominatedBy(side))
+			}
+		case *ssa.Call:
+			sc := x.Call.StaticCallee()
+			if sc == nil || !inModule(sc) || !g.isSelector(g.r.P.declared(sc), 0) {
+				continue
+			}
+			for _, ref := range *x.Referrers() {
+				if ex, ok := ref.(*ssa.Extract); ok && isErrorish(ex.Type()) {
+					for _, t := range failureTests(ex) {
+						out = union(out, dominatedBy(t.ok))
+					}
+				}
+			}
+		}
+	}
+	return out
+}
+
+// isSelector: fn returns (*OperationDefinition, error) and on every success return the
+// operation is an element of the document's operation list or passed a nil test.
+func (g *gateInfo) isSelector(fn *ssa.Function, depth int) bool {
+	if fn == nil || fn.Blocks == nil || depth > 2 {
+		return false
+	}
+	res := fn.Signature.Results()
+	if res.Len() != 2 || namedOf(res.At(0).Type()) != opDefType || !isErrorish(res.At(1).Type()) {
+		return false
+	}
+	for _, ret := range returnsOf(fn) {
+		vals := retVals(ret)
+		if !isNilConst(unwrap(vals[1])) {
+			continue // failure return
+		}
+		if !g.nonNilOp(vals[0], ret) {
+			return false
+		}
+	}
+	return true
+}
+
+func (g *gateInfo) nonNilOp(v ssa.Value, at ssa.Instruction) bool {
+	v = unwrap(v)
+	if ld, ok := v.(*ssa.UnOp); ok && ld.Op == token.MUL {
+		if _, ok := ld.X.(*ssa.IndexAddr); ok {
+			return true // element of the validated document's operation list (gqlparser never stores nil there)
+		}
+	}
+	if p, ok := v.(*ssa.Phi); ok {
+		for _, e := range p.Edges {
+			if !g.nonNilOp(e, at) {
+				return false
+			}
+		}
+		return true
+	}
+	if ok, _ := g.r.nonNilAt(v, at); ok {
+		return true
+	}
+	return false
+}
+
+// ruleOperationSelection (R4b.sel): an operation taken from the document by position (not by
+// name lookup) may be used only where the request carries no operationName.
+func ruleOperationSelection(r *Run) {
+	const rule = "R4b.sel"
+	n := 0
+	for _, fn := range r.P.Funcs {
+		if topFn(fn).Pkg == nil || topFn(fn).Pkg.Pkg.Path() != modPath {
+			continue
+		}
+		for _, ins := range allInstrs(fn) {
+			ld, ok := ins.(*ssa.UnOp)
+			if !ok || ld.Op != token.MUL || namedOf(ld.Type()) != opDefType {
+				continue
+			}
+			ia, ok := ld.X.(*ssa.IndexAddr)
+			if !ok {
+				continue
+			}
+			n++
+			// find the test of the requested name (a *string): this load must be on its nil side,
+			// and every use of the loaded operation as a result too
+			guarded := false
+			for _, i2 := range allInstrs(fn) {
+				iff, ok := i2.(*ssa.If)
+				if !ok {
+					continue
+				}
+				bo, ok := iff.Cond.(*ssa.BinOp)
+				if !ok || (bo.Op != token.NEQ && bo.Op != token.EQL) {
+					continue
+				}
+				var tested ssa.Value
+				if isNilConst(bo.Y) {
+					tested = bo.X
+				} else if isNilConst(bo.X) {
+					tested = bo.Y
+				}
+				if tested == nil || shortType(tested.Type()) != "*string" {
+					continue
+				}
+				nilSide := iff.Block().Succs[1]
+				if bo.Op == token.EQL {
+					nilSide = iff.Block().Succs[0]
+				}
+				// every use of the positional operation must lie on the nil side
+				all := len(nilSide.Preds) == 1
+				uses := append([]ssa.Instruction{ld}, *ld.Referrers()...)
+				for _, u := range uses {
+					if p, isPhi := u.(*ssa.Phi); isPhi {
+						// the edge carrying ld must come from a block on the nil side
+						for i, e := range p.Edges {
+							if e == ssa.Value(ld) {
+								pb := p.Block().Preds[i]
+								if !(nilSide == pb || nilSide.Dominates(pb)) {
+									all = false
+								}
+							}
+						}
+						continue
+					}
+					if !(nilSide == u.Block() || nilSide.Dominates(u.Block())) {
+						all = false
+					}
+				}
+				if all {
+					guarded = true
+				}
+			}
+			_ = ia
+			r.Check(guarded, rule, fnName(fn), "operation taken by position", r.P.pos(ld.Pos()),
+				"the document's only operation is used only where the request names no operation",
+				"an operation is picked from the document by position on a path where the request carries an operationName: a request naming an operation the document does not define is then executed instead of being answered with a validation error by the gateway alone")
+		}
+	}
+	r.AtLeast(rule, "positional operation selections", n, 1)
 }
 
 func ruleGate(r *Run) {
